@@ -40,6 +40,11 @@ CHECKS = {
 }
 
 NOT_YET = {}
+_meta = os.path.join(HERE, 'tools', 'checks_meta.json')
+if os.path.exists(_meta):
+    for _k, _v in json.load(open(_meta)).items():
+        CHECKS[_k] = (_v['category'], _v['technique'], _v['text'], _v['note'], 'DESIGN.md section 4 and 9, ' + _k)
+
 
 
 def main():
